@@ -103,3 +103,40 @@ def cond(bounds='', family=None, timeout=None, thorough_timeout=None, reach=True
                                  thorough_timeout=thorough_timeout, reach=reach, tiers=tiers, outside=outside)))
         return fn
     return deco
+
+
+class ModuleState(object):
+    """Snapshot of the plain dict / list / set globals of a module, restorable at the start of every execution.
+
+    Code under analysis must start every symbolic execution from the same state; a cache or memo added to a module
+    (hidden state) would otherwise leak between paths (CrossHair: NotDeterministic).  restore() also puts back
+    containers that were rebound and empties containers that did not exist at snapshot time."""
+
+    def __init__(self, module, skip=()):
+        self.module = module
+        self.skip = set(skip)
+        self.snap = {}
+        for k, v in vars(module).items():
+            if k.startswith('__') or k in self.skip:
+                continue
+            if type(v) in (dict, list, set):
+                self.snap[k] = (v, type(v)(v))
+
+    def restore(self):
+        for k, v in list(vars(self.module).items()):
+            if k.startswith('__') or k in self.skip:
+                continue
+            if k in self.snap:
+                obj, copy = self.snap[k]
+                if type(obj) is dict:
+                    obj.clear()
+                    obj.update(copy)
+                elif type(obj) is list:
+                    obj[:] = copy
+                else:
+                    obj.clear()
+                    obj.update(copy)
+                if vars(self.module).get(k) is not obj and type(vars(self.module).get(k)) in (dict, list, set):
+                    setattr(self.module, k, obj)
+            elif type(v) in (dict, list, set):
+                v.clear()
